@@ -438,6 +438,9 @@ func (f *btcsel) Exec(r *hx.Run, op []string) string {
 		if len(mtx.TxOut) == 2 {
 			change = mtx.TxOut[1].Value
 		}
+		if !(inTotal == amount || uint64(inTotal) >= uint64(amount)+f.minChange()) {
+			r.Viol("C26:tx-total-neither-payment-nor-payment-plus-min-change", fmt.Sprintf("makeBtcTx spends inputs %v worth %d for a payment of %d with min-change %d: the change %d is below the minimum", ins, inTotal, amount, f.minChange(), inTotal-amount))
+		}
 		if change != inTotal-amount {
 			r.Viol("C26:change-not-inputs-minus-amount", fmt.Sprintf("inputs total %d, amount %d, change output %d", inTotal, amount, change))
 		}
@@ -1071,6 +1074,85 @@ func (f *btcsel) genHistory(r *hx.Run, id int) {
 	r.Hist(fmt.Sprintf("hist.withdrawals-ok.%d", okN))
 }
 
+// genCrowded: a redeem key holding many (mostly tiny) outputs. Targets are steered so that the branch-and-bound finds its
+// answer within a few steps (the largest output alone, largest + smallest, largest + smallest + second largest, or the
+// largest leaving at least the minimum change): exact matches leave no change, so anything added to the selection
+// afterwards shows up as a total that is neither the payment nor the payment plus at least the minimum change.
+func (f *btcsel) genCrowded(r *hx.Run, id int) {
+	r.Case(fmt.Sprintf("crowd-%d", id))
+	mn := [][2]int{{2, 3}, {5, 7}, {3, 5}}[r.Rng.Intn(3)]
+	mc := uint64([]int{2000, 546, 5000, 2000}[r.Rng.Intn(4)])
+	r.Do(fmt.Sprintf("init %d %d %d %d", mn[0], mn[1], r.Rng.Intn(2), mc))
+	L := 65 + r.Rng.Intn(r.Pick(90, 236))
+	if r.Rng.Chance(1, 4) {
+		L = 60 + r.Rng.Intn(10) // around the 64 mark
+	}
+	nBig := 3 + r.Rng.Intn(4)
+	vals := map[int]uint64{}
+	for i := 0; i < L; i++ {
+		v := uint64(1 + r.Rng.Intn(1500))
+		if i < nBig {
+			v = uint64(200000+r.Rng.Intn(5000000)) + uint64(i) // distinct large values
+		}
+		kind := "w"
+		if r.Rng.Chance(1, 10) {
+			kind = "s"
+		}
+		r.Do(fmt.Sprintf("add %d %d %s %s %d", i, v, kind, hx.Hex(r.Rng.Bytes(32)), r.Rng.Intn(3)))
+		vals[i] = v
+	}
+	live := map[int]bool{}
+	for i := 0; i < L; i++ {
+		live[i] = true
+	}
+	for step := 0; step < 2+r.Rng.Intn(2); step++ {
+		var vs []uint64
+		for i := range live {
+			vs = append(vs, vals[i])
+		}
+		if len(vs) < 4 {
+			break
+		}
+		sort.Slice(vs, func(a, b int) bool { return vs[a] > vs[b] })
+		v0, v1, vmin := vs[0], vs[1], vs[len(vs)-1]
+		var amount uint64
+		switch r.Rng.Intn(5) {
+		case 0:
+			amount = v0 // the largest output alone, no change
+		case 1:
+			amount = v0 + vmin
+		case 2:
+			amount = v0 + vmin + v1
+		case 3:
+			amount = v0 - mc - uint64(r.Rng.Intn(1000)) // change of at least the minimum
+		default:
+			amount = v0
+		}
+		var res string
+		if r.Rng.Bool() {
+			res = r.Do(fmt.Sprintf("maketx %d", amount))
+		} else {
+			res = r.Do(fmt.Sprintf("choose %d 25,34", amount))
+		}
+		r.Hist("crowd." + strings.Fields(res)[0])
+		if !strings.HasPrefix(res, "ok") {
+			break
+		}
+		// what is still unspent according to the answer
+		for _, fld := range strings.Fields(res) {
+			if strings.HasPrefix(fld, "utxos=") {
+				live = map[int]bool{}
+				for _, t := range splitList(strings.TrimPrefix(fld, "utxos=")) {
+					i, _ := strconv.Atoi(t)
+					live[i] = true
+				}
+			}
+		}
+		r.Nontrivial(fmt.Sprintf("crowd/L%d/step%d", L/32, step))
+	}
+	r.Do("dump")
+}
+
 func (f *btcsel) Gen(r *hx.Run) {
 	if pf := os.Getenv("HBTC_PROF"); pf != "" {
 		fh, _ := os.Create(pf)
@@ -1105,6 +1187,11 @@ func (f *btcsel) Gen(r *hx.Run) {
 	}
 	for i := 0; i < nSel; i++ {
 		f.genSel(r, i)
+	}
+	// histories on a crowded unspent record: 65..300 outputs, most of them tiny, exact-match (changeless) and
+	// change-leaving withdrawals through chooseUtxos and makeBtcTx
+	for i := 0; i < r.Pick(40, 600); i++ {
+		f.genCrowded(r, i)
 	}
 	nHist := r.Pick(3000, 40000)
 	for i := 0; i < nHist; i++ {
